@@ -19,14 +19,24 @@ import (
 //go:embed anchors_ref.json
 var anchorsRefJSON []byte
 
+// anchors_fp.json: for every reference function a fingerprint (callees outside the function, string constants, larger integer
+// constants, fields touched). It only breaks ties: when several functions with one signature were renamed at once, each missing
+// reference name is identified with the new function whose body resembles it most.
+//
+//go:embed anchors_fp.json
+var anchorsFPJSON []byte
+
 type renameInfo struct {
 	canon map[*ssa.Function]string // current function -> reference name
 	field map[*types.Var]string    // current struct field -> reference name
+	qual  map[*ssa.Function]string // current function -> reference qualified name ("(*pkg.T).m" / "pkg.f")
 	byKey map[string]*ssa.Function // "rel|recv|refname" -> current function
+	ref   map[string]string        // the reference table
+	conv  map[*ssa.Function]int    // +1: a reference method that is now a function taking the receiver first; -1: the reverse
 	notes []string
 }
 
-func fnKey(fn *ssa.Function) (rel, recv, name, sig string, ok bool) {
+func (p *Program) fnKey(fn *ssa.Function) (rel, recv, name, sig string, ok bool) {
 	if fn.Parent() != nil || fn.Pkg == nil || fn.Synthetic != "" {
 		return
 	}
@@ -38,18 +48,18 @@ func fnKey(fn *ssa.Function) (rel, recv, name, sig string, ok bool) {
 	if r := fn.Signature.Recv(); r != nil {
 		t := r.Type()
 		ptr := ""
-		if p, isP := t.(*types.Pointer); isP {
-			t = p.Elem()
+		if pt, isP := t.(*types.Pointer); isP {
+			t = pt.Elem()
 			ptr = "*"
 		}
 		if n, isN := t.(*types.Named); isN {
-			recv = ptr + n.Obj().Name()
+			recv = ptr + p.CanonTypeName(n.Obj())
 		} else {
 			recv = ptr + t.String()
 		}
 	}
 	name = fn.Name()
-	sig = sigString(fn.Signature)
+	sig = p.canonTypeStr(sigString(fn.Signature))
 	return rel, recv, name, sig, true
 }
 
@@ -93,8 +103,8 @@ func (p *Program) structFields() (map[string]string, map[string]*types.Var) {
 			}
 			for i := 0; i < st.NumFields(); i++ {
 				f := st.Field(i)
-				k := rel + "|" + n + "|#" + f.Name()
-				sigs[k] = fmt.Sprintf("%d:%s", i, types.TypeString(f.Type(), nil))
+				k := rel + "|" + p.CanonTypeName(tn) + "|#" + f.Name()
+				sigs[k] = fmt.Sprintf("%d:%s", i, p.canonTypeStr(types.TypeString(f.Type(), nil)))
 				objs[k] = f
 			}
 		}
@@ -105,12 +115,12 @@ func (p *Program) structFields() (map[string]string, map[string]*types.Var) {
 // AnchorsOf lists "rel|recv|name" -> signature for the program (used to regenerate anchors_ref.json).
 func (p *Program) AnchorsOf() map[string]string {
 	out := map[string]string{}
-	for _, fn := range p.ModuleFuncs() {
+	for _, fn := range p.rawModuleFuncs() {
 		pos := p.Fset.Position(fn.Pos())
 		if strings.HasSuffix(pos.Filename, "_test.go") {
 			continue
 		}
-		if rel, recv, name, sig, ok := fnKey(fn); ok {
+		if rel, recv, name, sig, ok := p.fnKey(fn); ok {
 			out[rel+"|"+recv+"|"+name] = sig
 		}
 	}
@@ -125,22 +135,25 @@ func (p *Program) renames() *renameInfo {
 	if p.ren != nil {
 		return p.ren
 	}
-	ri := &renameInfo{canon: map[*ssa.Function]string{}, byKey: map[string]*ssa.Function{}, field: map[*types.Var]string{}}
+	ri := &renameInfo{canon: map[*ssa.Function]string{}, byKey: map[string]*ssa.Function{}, field: map[*types.Var]string{}, qual: map[*ssa.Function]string{}, conv: map[*ssa.Function]int{}}
 	p.ren = ri
 	ref := map[string]string{}
 	if json.Unmarshal(anchorsRefJSON, &ref) != nil || len(ref) == 0 {
 		return ri
 	}
+	ri.ref = ref
 	cur := map[string]*ssa.Function{}
 	curSig := map[string]string{}
-	for _, fn := range p.ModuleFuncs() {
+	keyOf := map[*ssa.Function]string{}
+	for _, fn := range p.rawModuleFuncs() {
 		if strings.HasSuffix(p.Fset.Position(fn.Pos()).Filename, "_test.go") {
 			continue
 		}
-		if rel, recv, name, sig, ok := fnKey(fn); ok {
+		if rel, recv, name, sig, ok := p.fnKey(fn); ok {
 			k := rel + "|" + recv + "|" + name
 			cur[k] = fn
 			curSig[k] = sig
+			keyOf[fn] = k
 		}
 	}
 	// group missing reference names and extra current names by (rel|recv)
@@ -190,18 +203,25 @@ func (p *Program) renames() *renameInfo {
 					cands = append(cands, e)
 				}
 			}
-			if len(cands) != 1 {
+			if len(cands) == 0 {
 				continue
 			}
-			// the candidate must match only this missing name
+			// the candidate must match only this missing name; otherwise the bodies decide
 			n := 0
 			for _, m2 := range gr.missing {
 				if ref[m2] == curSig[cands[0]] {
 					n++
 				}
 			}
-			if n != 1 {
-				continue
+			if len(cands) != 1 || n != 1 {
+				if strings.Contains(m, "|#") {
+					continue
+				}
+				best := p.bestByFingerprint(m, cands, cur, gr.missing, ref, curSig)
+				if best == "" {
+					continue
+				}
+				cands = []string{best}
 			}
 			refName := m[strings.LastIndex(m, "|")+1:]
 			if strings.HasPrefix(refName, "#") != strings.HasPrefix(cands[0][strings.LastIndex(cands[0], "|")+1:], "#") {
@@ -215,8 +235,87 @@ func (p *Program) renames() *renameInfo {
 			fn := cur[cands[0]]
 			ri.canon[fn] = refName
 			ri.byKey[m] = fn
+			ri.qual[fn] = qualOfKey(m)
 			ri.notes = append(ri.notes, cands[0]+" is treated as the renamed "+m)
 		}
+	}
+	// method <-> function conversion inside one package: (*T).m(args)  ~  m2(t *T, args)
+	flat := func(k, sig string) string { // signature with the receiver as first parameter
+		parts := strings.SplitN(k, "|", 3)
+		if parts[1] == "" {
+			return sig
+		}
+		rt := ModulePath
+		if parts[0] != "" {
+			rt += "/" + parts[0]
+		}
+		rt += "." + strings.TrimPrefix(parts[1], "*")
+		if strings.HasPrefix(parts[1], "*") {
+			rt = "*" + rt
+		}
+		i := strings.Index(sig, "(")
+		if strings.HasPrefix(sig[i:], "()") {
+			return sig[:i+1] + rt + sig[i+1:]
+		}
+		return sig[:i+1] + rt + ", " + sig[i+1:]
+	}
+	var missing, extra []string
+	for k := range ref {
+		if !has(k) && ri.byKey[k] == nil && !strings.Contains(k, "|#") {
+			missing = append(missing, k)
+		}
+	}
+	for k, fn := range cur {
+		if _, ok := ref[k]; !ok && ri.canon[fn] == "" {
+			extra = append(extra, k)
+		}
+	}
+	sort.Strings(missing)
+	sort.Strings(extra)
+	for _, m := range missing {
+		mp := strings.SplitN(m, "|", 3)
+		var cands []string
+		for _, e := range extra {
+			ep := strings.SplitN(e, "|", 3)
+			if ep[0] != mp[0] || (ep[1] == "") == (mp[1] == "") {
+				continue // same package, and exactly one of the two is a method
+			}
+			if flat(e, curSig[e]) == flat(m, ref[m]) {
+				cands = append(cands, e)
+			}
+		}
+		if len(cands) != 1 {
+			continue
+		}
+		n := 0
+		for _, m2 := range missing {
+			if strings.SplitN(m2, "|", 3)[0] == mp[0] && flat(m2, ref[m2]) == flat(cands[0], curSig[cands[0]]) {
+				n++
+			}
+		}
+		if n != 1 {
+			continue
+		}
+		fn := cur[cands[0]]
+		ri.canon[fn] = mp[2]
+		ri.byKey[m] = fn
+		ri.qual[fn] = qualOfKey(m)
+		if mp[1] != "" {
+			ri.conv[fn] = 1
+		} else {
+			ri.conv[fn] = -1
+		}
+		ri.notes = append(ri.notes, cands[0]+" is treated as "+m+" (method/function conversion)")
+	}
+	for fn, k := range keyOf {
+		if _, isRef := ref[k]; isRef && qualOfKey(k) != fn.String() {
+			// unchanged method of a renamed type
+			ri.qual[fn] = qualOfKey(k)
+			ri.byKey[k] = fn
+		}
+	}
+	for tn, old := range p.typeRenames() {
+		ri.notes = append(ri.notes, tn.Pkg().Path()+"."+tn.Name()+" is treated as the renamed type "+old)
 	}
 	sort.Strings(ri.notes)
 	return ri
@@ -255,4 +354,331 @@ func (p *Program) FieldByCanonName(st *types.Struct, name string) (int, *types.V
 		}
 	}
 	return -1, nil
+}
+
+// qualOfKey renders a reference key "rel|recv|name" the way (*ssa.Function).String does.
+func qualOfKey(k string) string {
+	parts := strings.SplitN(k, "|", 3)
+	pk := ModulePath
+	if parts[0] != "" {
+		pk += "/" + parts[0]
+	}
+	if parts[1] == "" {
+		return pk + "." + parts[2]
+	}
+	if strings.HasPrefix(parts[1], "*") {
+		return "(*" + pk + "." + parts[1][1:] + ")." + parts[2]
+	}
+	return "(" + pk + "." + parts[1] + ")." + parts[2]
+}
+
+// CanonQual is the qualified name the rules know the function under.
+func (p *Program) CanonQual(fn *ssa.Function) string {
+	if p != nil {
+		if q, ok := p.renames().qual[fn]; ok {
+			return q
+		}
+	}
+	return fn.String()
+}
+
+// ---------------------------------------------------------------- renamed struct types
+
+// typeRenames: a struct type of the reference that no longer exists is identified with the one new struct type of the same
+// package whose fields have the same types in the same order (field names may have changed too; those are resolved by the field
+// layer afterwards). Everything keyed by a type name (receivers, field keys, signatures, TypeIs) then uses the reference name.
+func (p *Program) typeRenames() map[*types.TypeName]string {
+	if p.typeRen != nil {
+		return p.typeRen
+	}
+	p.typeRen = map[*types.TypeName]string{}
+	ref := map[string]string{}
+	if json.Unmarshal(anchorsRefJSON, &ref) != nil {
+		return p.typeRen
+	}
+	// reference structs: rel|T -> index -> type string
+	refStructs := map[string]map[int]string{}
+	for k, v := range ref {
+		i := strings.Index(k, "|#")
+		if i < 0 {
+			continue
+		}
+		j := strings.Index(v, ":")
+		idx := 0
+		fmt.Sscanf(v[:j], "%d", &idx)
+		if refStructs[k[:i]] == nil {
+			refStructs[k[:i]] = map[int]string{}
+		}
+		refStructs[k[:i]][idx] = v[j+1:]
+	}
+	for _, pk := range p.Pkgs {
+		if !IsLibraryPkg(pk.PkgPath) {
+			continue
+		}
+		rel := strings.TrimPrefix(strings.TrimPrefix(pk.PkgPath, ModulePath), "/")
+		sc := pk.Types.Scope()
+		var missing []string
+		for k := range refStructs {
+			if strings.HasPrefix(k, rel+"|") && strings.Count(k, "|") == 1 && sc.Lookup(k[len(rel)+1:]) == nil {
+				missing = append(missing, k)
+			}
+		}
+		if len(missing) == 0 {
+			continue
+		}
+		sort.Strings(missing)
+		var extra []*types.TypeName
+		for _, n := range sc.Names() {
+			tn, ok := sc.Lookup(n).(*types.TypeName)
+			if !ok || tn.IsAlias() || strings.HasSuffix(p.Fset.Position(tn.Pos()).Filename, "_test.go") {
+				continue
+			}
+			if _, isS := tn.Type().Underlying().(*types.Struct); isS && refStructs[rel+"|"+n] == nil {
+				extra = append(extra, tn)
+			}
+		}
+		same := func(tn *types.TypeName, refKey string) bool {
+			st := tn.Type().Underlying().(*types.Struct)
+			rf := refStructs[refKey]
+			if st.NumFields() != len(rf) {
+				return false
+			}
+			oldQ := pk.PkgPath + "." + refKey[len(rel)+1:]
+			newQ := pk.PkgPath + "." + tn.Name()
+			for i := 0; i < st.NumFields(); i++ {
+				if replaceQual(types.TypeString(st.Field(i).Type(), nil), newQ, oldQ) != rf[i] {
+					return false
+				}
+			}
+			return true
+		}
+		for _, m := range missing {
+			var cands []*types.TypeName
+			for _, e := range extra {
+				if same(e, m) {
+					cands = append(cands, e)
+				}
+			}
+			if len(cands) != 1 {
+				continue
+			}
+			n := 0
+			for _, m2 := range missing {
+				if same(cands[0], m2) {
+					n++
+				}
+			}
+			if n == 1 {
+				p.typeRen[cands[0]] = m[len(rel)+1:]
+			}
+		}
+	}
+	return p.typeRen
+}
+
+// replaceQual replaces the qualified type name from by to where it stands as a whole identifier.
+func replaceQual(s, from, to string) string {
+	out := ""
+	for {
+		i := strings.Index(s, from)
+		if i < 0 {
+			return out + s
+		}
+		end := i + len(from)
+		if end < len(s) && (s[end] == '_' || s[end] >= '0' && s[end] <= '9' || s[end] >= 'a' && s[end] <= 'z' || s[end] >= 'A' && s[end] <= 'Z') {
+			out += s[:end]
+			s = s[end:]
+			continue
+		}
+		out += s[:i] + to
+		s = s[end:]
+	}
+}
+
+// CanonTypeName: the name the rules know a named type under.
+func (p *Program) CanonTypeName(tn *types.TypeName) string {
+	if p != nil {
+		if n, ok := p.typeRenames()[tn]; ok {
+			return n
+		}
+	}
+	return tn.Name()
+}
+
+func (p *Program) canonTypeStr(s string) string {
+	for tn, old := range p.typeRenames() {
+		s = replaceQual(s, tn.Pkg().Path()+"."+tn.Name(), tn.Pkg().Path()+"."+old)
+	}
+	return s
+}
+
+// LookupType finds the type the rules know as name in the package rel.
+func (p *Program) LookupType(rel, name string) *types.TypeName {
+	pk := p.Pkg(rel)
+	if pk == nil {
+		return nil
+	}
+	if tn, ok := pk.Types.Scope().Lookup(name).(*types.TypeName); ok {
+		return tn
+	}
+	for tn, old := range p.typeRenames() {
+		if old == name && tn.Pkg() == pk.Types {
+			return tn
+		}
+	}
+	return nil
+}
+
+// RecvOf: the receiver type the rules know the function with (nil for plain functions). A reference method that became a
+// function taking the receiver as first parameter still has that receiver, and the reverse.
+func (p *Program) RecvOf(f *ssa.Function) types.Type {
+	if f == nil {
+		return nil
+	}
+	switch p.convOf(f) {
+	case 1:
+		if f.Signature.Params().Len() > 0 {
+			return f.Signature.Params().At(0).Type()
+		}
+		return nil
+	case -1:
+		return nil
+	}
+	if r := f.Signature.Recv(); r != nil {
+		return r.Type()
+	}
+	return nil
+}
+
+func (p *Program) convOf(f *ssa.Function) int {
+	if p == nil || f == nil {
+		return 0
+	}
+	return p.renames().conv[f]
+}
+
+// Fingerprint of a function body (see anchors_fp.json).
+func (p *Program) Fingerprint(fn *ssa.Function) []string {
+	set := map[string]bool{}
+	var visit func(f *ssa.Function)
+	visit = func(f *ssa.Function) {
+		for _, b := range f.Blocks {
+			for _, i := range b.Instrs {
+				if c, ok := i.(ssa.CallInstruction); ok {
+					cc := c.Common()
+					if cc.IsInvoke() {
+						set["invoke:"+cc.Method.Name()] = true
+					} else if g := cc.StaticCallee(); g != nil && g.Parent() == nil {
+						set["call:"+g.String()] = true
+					}
+				}
+				switch x := i.(type) {
+				case *ssa.FieldAddr:
+					set["field:"+FieldNameRaw(x.X.Type(), x.Field)] = true
+				case *ssa.Field:
+					set["field:"+FieldNameRaw(x.X.Type(), x.Field)] = true
+				}
+				for _, op := range i.Operands(nil) {
+					if k, ok := (*op).(*ssa.Const); ok && k.Value != nil {
+						s := k.Value.ExactString()
+						if len(s) > 1 {
+							set["const:"+s] = true
+						}
+					}
+				}
+			}
+		}
+		for _, a := range f.AnonFuncs {
+			visit(a)
+		}
+	}
+	visit(fn)
+	var out []string
+	for k := range set {
+		out = append(out, k)
+	}
+	sort.Strings(out)
+	return out
+}
+
+// FieldNameRaw: "T.field" with the names as written in the analysed tree.
+func FieldNameRaw(t types.Type, idx int) string {
+	if pt, ok := t.Underlying().(*types.Pointer); ok {
+		t = pt.Elem()
+	}
+	st, ok := t.Underlying().(*types.Struct)
+	if !ok || idx >= st.NumFields() {
+		return "?"
+	}
+	n := ""
+	if nt, ok := t.(*types.Named); ok {
+		n = nt.Obj().Name()
+	}
+	return n + "." + st.Field(idx).Name()
+}
+
+// FingerprintsOf: reference key -> fingerprint (used to regenerate anchors_fp.json).
+func (p *Program) FingerprintsOf() map[string][]string {
+	out := map[string][]string{}
+	for _, fn := range p.rawModuleFuncs() {
+		if strings.HasSuffix(p.Fset.Position(fn.Pos()).Filename, "_test.go") {
+			continue
+		}
+		if rel, recv, name, _, ok := p.fnKey(fn); ok {
+			out[rel+"|"+recv+"|"+name] = p.Fingerprint(fn)
+		}
+	}
+	return out
+}
+
+func jaccard(a, b []string) float64 {
+	if len(a) == 0 && len(b) == 0 {
+		return 1
+	}
+	in := map[string]bool{}
+	for _, x := range a {
+		in[x] = true
+	}
+	n := 0
+	for _, x := range b {
+		if in[x] {
+			n++
+		}
+	}
+	return float64(n) / float64(len(a)+len(b)-n)
+}
+
+// bestByFingerprint resolves a tie between several renamed functions of one signature: the candidate whose body resembles the
+// reference body of m most, provided it resembles no other missing reference function more and the resemblance is clear.
+func (p *Program) bestByFingerprint(m string, cands []string, cur map[string]*ssa.Function, missing []string, ref, curSig map[string]string) string {
+	fps := map[string][]string{}
+	if json.Unmarshal(anchorsFPJSON, &fps) != nil {
+		return ""
+	}
+	want, ok := fps[m]
+	if !ok {
+		return ""
+	}
+	best, bestScore, second := "", -1.0, -1.0
+	for _, c := range cands {
+		s := jaccard(want, p.Fingerprint(cur[c]))
+		if s > bestScore {
+			best, second, bestScore = c, bestScore, s
+		} else if s > second {
+			second = s
+		}
+	}
+	if bestScore < 0.5 || bestScore-second < 0.15 {
+		return ""
+	}
+	// no other missing function of that signature is a better match for the chosen candidate
+	got := p.Fingerprint(cur[best])
+	for _, m2 := range missing {
+		if m2 != m && ref[m2] == curSig[best] {
+			if jaccard(fps[m2], got) >= bestScore {
+				return ""
+			}
+		}
+	}
+	return best
 }
